@@ -8,6 +8,7 @@
 package main
 
 import (
+	"sync/atomic"
 	"bytes"
 	"crypto/sha256"
 	"encoding/hex"
@@ -115,6 +116,8 @@ func init() {
 		Rule: "(a) both ends of rain's mse.Stream over a simulated connection that fragments, delays and short-reads: offered ciphers 1/2/3, acceptor policies (RC4 first, plaintext first, only one, none), wrong key, initial payload 0..65535, pads drawn by rain from the seeded crypto/rand, then full-duplex data in random write and read chunkings; the handshake must fail on both sides or succeed on both with the acceptor's legal choice, and every byte (initial payload first) must arrive unchanged; (b) two or three real sessions with independently drawn encryption policies transfer a torrent over such a network: a session that forces a direction never writes or answers a plaintext handshake and never lists an unencrypted peer of that direction, compatible policies complete; (c) a session that forces encryption against scripted plaintext-only peers never puts a plaintext BitTorrent handshake on the wire, also not on the retry; non-trivial always (each run performs at least one handshake attempt); distinct = distinct event-trace hashes"}
 	props["C06"] = &propCfg{Scenarios: []scenarioRef{{"metainfo", 1}}, OwnsCrash: true, Level: "exploration", ExtraEnv: []string{"SIM_MEMLIMIT_MB=6000"}, RunTimeout: 90 * time.Second,
 		Rule: "a valid generated info dictionary is edited (0-3 edits: negative / overflowing / huge file lengths, piece length 0/negative/huge/odd, piece string cut or grown, wrong types, deleted keys, length and files together, empty files list, odd paths, deep nesting, huge or empty name, 50000 files, byte flips, truncation, duplicated key, trailing bytes) and handed to a real session as a .torrent file, as the body of a torrent URL, as metadata served by a scripted peer for a magnet link whose hash matches the edited bytes, or as the info of a resume record before NewSession; whatever is accepted must show positive piece length, >=1 piece, non-negative file lengths, piece count = ceil(total/piece length) and respect MaxPieces; Start must leave the event loop answering Stats() for 20 simulated seconds; the process runs under a 6 GB address-space limit and a 90 s wall-clock watchdog, so endless loops and runaway allocation end the run as a crash or hang, which this property owns; non-trivial always; distinct = distinct event-trace hashes"}
+	props["C07"] = &propCfg{Scenarios: []scenarioRef{{"paths", 1}}, OwnsCrash: true, Level: "exploration",
+		Rule: "single- and multi-file torrents whose name and path components are drawn from hostile strings (dot-dot, dot, empty, embedded separators and backslashes, absolute, NUL, 300 bytes, invalid UTF-8, traversal chains aimed at files that exist in the simulated file system) are added to a real session with and without the torrent-id directory level, started (allocation runs), and removed; 40% of the runs also post a multipart move request to the session's RPC port whose tar entries have hostile names; every operation in the simulated disk's audit log other than stat must lie inside the torrent's own directory (or be the creation of its parents), files that exist elsewhere must survive, and a completed allocation must leave as many distinct files as the torrent has; non-trivial always; distinct = distinct event-trace hashes"}
 	props["C15"] = &propCfg{Scenarios: []scenarioRef{{"trackers", 1}}, Level: "exploration",
 		Rule: "1-3 torrents announcing to 1-3 tiers of scripted HTTP and UDP trackers whose reply scripts are generated (ok with any 32-bit interval / min interval or none, failure with retry-in, 4xx/5xx, garbage, oversize, no reply, delays; UDP: wrong transaction id, short, duplicate, datagram loss/duplication, connection-id expiry), down windows, start/stop/announce commands, optional seed so that 'completed' happens; every announce is checked online (info-hash, port, peer id vs handshake, counters, event discipline per run, spacing); non-trivial if more than two announces were received; distinct = distinct event-trace hashes among non-trivial runs"}
 	props["C16"] = &propCfg{Scenarios: []scenarioRef{{"trackers", 1}}, OwnsCrash: true, Level: "exploration",
@@ -640,6 +643,7 @@ func main() {
 		totalW += s.Weight
 	}
 	jobs := make(chan job)
+	var slowRuns atomic.Int64
 	results := make(chan *runOutcome, 64)
 	var wg sync.WaitGroup
 	for i := 0; i < *workers; i++ {
@@ -647,7 +651,21 @@ func main() {
 		go func() {
 			defer wg.Done()
 			for j := range jobs {
-				results <- r.run(j.sc, j.seed, "")
+				o := r.run(j.sc, j.seed, "")
+				if o.Kind == "hang" {
+					// A wall-clock watchdog fires on a loaded machine too. A hang counts only
+					// if the same run, alone in its worker with five times the time, hangs again
+					// (it is deterministic: a real endless loop or lock-up repeats).
+					os.Remove(o.PlanFile)
+					r2 := *r
+					r2.timeout = 5 * r.timeout
+					o2 := r2.run(j.sc, j.seed, "")
+					if o2.Kind != "hang" {
+						slowRuns.Add(1)
+					}
+					o = o2
+				}
+				results <- o
 			}
 		}()
 	}
@@ -891,6 +909,7 @@ func main() {
 			"foreign_violations":     foreign,
 			"known_findings_met":     known,
 			"hangs":                  hangs,
+			"slow_runs_rechecked":    slowRuns.Load(),
 			"determinism_recheck":    map[string]int{"reran": detChecked, "mismatch": detMismatch},
 			"real_vs_stub":           "real: rain torrent/ + internal/* (filestorage, mse, trackers, resumer, bbolt, net/http); simulated seams: scheduler, clock, sockets/DNS, data files; stub: DHT; scripted: peers, trackers, web seeds",
 		}}
